@@ -99,7 +99,7 @@ class Recorder:
             from . import frame as FR
 
             allcols = sorted({c for f in op["features"] for c in f} | set(op["cols"]) | ({op["time_axis"]} if op.get("time_axis") else set()))
-            arg["df"] = FR.make_df(op["rows"], allcols)
+            arg["df"] = FR.make_df(op["rows"], allcols, op.get("index"))
             arg["before"] = arg["df"].copy(deep=True)
             arg["specs"] = None
             if op.get("given") is not None:
